@@ -660,26 +660,6 @@ type access =
 | AcRead
 | AcReadWrite
 
-(** val cacc_eqb : cacc -> cacc -> bool **)
-
-let cacc_eqb a b =
-  match a with
-  | With -> (match b with
-             | With -> true
-             | _ -> false)
-  | Read -> (match b with
-             | Read -> true
-             | _ -> false)
-  | ReadWrite -> (match b with
-                  | ReadWrite -> true
-                  | _ -> false)
-  | Not -> (match b with
-            | Not -> true
-            | _ -> false)
-  | Conflict -> (match b with
-                 | Conflict -> true
-                 | _ -> false)
-
 (** val merge_acc : cacc -> cacc -> cacc option **)
 
 let merge_acc l r =
@@ -741,6 +721,12 @@ let join_acc a b =
   | AcReadWrite -> (match b with
                     | AcNone -> Some AcReadWrite
                     | _ -> None)
+
+(** val conflict_acc : cacc -> bool **)
+
+let conflict_acc = function
+| Conflict -> true
+| _ -> false
 
 type case = (n * cacc) list
 
@@ -838,8 +824,8 @@ let rec dedupN l seen =
 let ca_conflicts e =
   dedupN
     (flat_map (fun c ->
-      flat_map (fun p ->
-        if cacc_eqb (snd p) Conflict then (fst p) :: [] else []) c) e) []
+      flat_map (fun p -> if conflict_acc (snd p) then (fst p) :: [] else []) c)
+      e) []
 
 type query =
 | QRef of n
@@ -1333,8 +1319,8 @@ type evv = { ev_ser : n; ev_val : n; ev_id : key }
 type qitem = { qi_targeted : bool; qi_idx : n; qi_target : key; qi_ev : evv }
 
 type logent = { lg_handler : key; lg_targeted : bool; lg_tag : n;
-                lg_ev : evv; lg_target : key; lg_recv_item : item list;
-                lg_views : (n * item list) list }
+                lg_ev : evv; lg_target : key; lg_resets : n;
+                lg_recv_item : item list; lg_views : (n * item list) list }
 
 type hst = { k_ids : key list; k_fuel : n; k_serial : n; k_inv : n;
              k_panic_at : n; k_log : logent list }
@@ -2245,12 +2231,13 @@ let recv_item w q c loc =
      | None -> Inl (FUB (Npos (XO (XO (XO (XI (XO (XI XH)))))))))
   | None -> Inl (FUB (Npos (XI (XI (XI (XO (XO (XI XH))))))))
 
-(** val bump_vals : n list -> n list -> n -> cval list -> cval list **)
+(** val bump_vals :
+    (n -> bool) -> n list -> n list -> n -> cval list -> cval list **)
 
-let bump_vals comps muts d vals =
+let bump_vals zst comps muts d vals =
   map (fun pat ->
     let (c, v) = pat in
-    if existsb (N.eqb c) muts
+    if (&&) (existsb (N.eqb c) muts) (negb (zst c))
     then ((fst v),
            (N.add (snd v)
              (N.mul d (N.of_nat (length (filter (N.eqb c) muts))))))
@@ -2270,12 +2257,16 @@ let write_arch w q d ai only_row =
            (match nget a.a_rows r with
             | Some p ->
               let (e, vals) = p in
-              nset a.a_rows r (e, (bump_vals a.a_comps muts d vals))
+              nset a.a_rows r (e,
+                (bump_vals (fun c -> ctag_zst (comp_tag w c)) a.a_comps muts
+                  d vals))
             | None -> a.a_rows)
          | None ->
            map (fun pat ->
-             let (e, vals) = pat in (e, (bump_vals a.a_comps muts d vals)))
-             a.a_rows
+             let (e, vals) = pat in
+             (e,
+             (bump_vals (fun c -> ctag_zst (comp_tag w c)) a.a_comps muts d
+               vals))) a.a_rows
        in
        set_archs w (slab_set w.w_archs ai (set_rows a rows'))
      | None -> w)
@@ -2421,8 +2412,15 @@ let rec run_actions acts ps ev_target fresh sent w =
              | Some _ ->
                (match reserve w0 with
                 | ROk (id, w1) ->
-                  send false g_SPAWN kEY_NULL { ev_ser = N0; ev_val = N0;
-                    ev_id = id } (push_known w1 id) (app fresh (id :: []))
+                  (match sender_lookup ps false g_SPAWN with
+                   | Some o ->
+                     (match o with
+                      | Some _ ->
+                        send false g_SPAWN kEY_NULL { ev_ser = N0; ev_val =
+                          N0; ev_id = id } (push_known w1 id)
+                          (app fresh (id :: []))
+                      | None -> ((sent, w1), (Some (FPanic (Npos (XI XH))))))
+                   | None -> ((sent, w1), (Some (FPanic (Npos (XI XH))))))
                 | RFail (f, w1) -> ((sent, w1), (Some f)))
              | None -> run_actions rest ps ev_target fresh sent w0)
           | AInsert (t, k) ->
@@ -2439,6 +2437,17 @@ let rec run_actions acts ps ev_target fresh sent w =
           | ADespawn t ->
             send true t_DESPAWN (resolve_tgt w0 t ev_target fresh) { ev_ser =
               N0; ev_val = N0; ev_id = kEY_NULL } w0 fresh)
+
+(** val ev_has_payload : bool -> n -> bool **)
+
+let ev_has_payload targeted tag =
+  if targeted
+  then (||) (N.ltb tag (Npos (XO (XO XH))))
+         ((&&)
+           ((&&) (N.leb (Npos (XO (XO (XI (XO XH))))) tag)
+             (N.ltb tag (Npos (XO (XO (XO (XI (XO XH))))))))
+           (negb (ctag_zst (N.sub tag (Npos (XO (XO (XI (XO XH)))))))))
+  else N.ltb tag (Npos (XO (XO XH)))
 
 (** val param_views :
     world -> rparam list -> eloc -> (fail, item list * (n * item list) list)
@@ -2521,8 +2530,8 @@ let run_handler beh w h it tag loc =
     let (ritems, views) = p in
     let hs = w.w_h in
     let le = { lg_handler = h.h_key; lg_targeted = it.qi_targeted; lg_tag =
-      tag; lg_ev = it.qi_ev; lg_target = it.qi_target; lg_recv_item = ritems;
-      lg_views = views }
+      tag; lg_ev = it.qi_ev; lg_target = it.qi_target; lg_resets =
+      w.w_resets; lg_recv_item = ritems; lg_views = views }
     in
     let inv = hs.k_inv in
     let w1 =
@@ -2533,13 +2542,17 @@ let run_handler beh w h it tag loc =
     let sc = beh h le inv in
     let ev = it.qi_ev in
     let ev1 =
-      if h.h_recv_mut
+      if (&&) h.h_recv_mut (ev_has_payload it.qi_targeted tag)
       then { ev_ser = ev.ev_ser; ev_val = (N.add ev.ev_val sc.s_evdelta);
              ev_id = ev.ev_id }
       else ev
     in
     let w2 = apply_writes w1 h.h_params loc sc.s_wdelta in
-    let ev_target = if it.qi_targeted then it.qi_target else ev.ev_id in
+    let ev_target =
+      if it.qi_targeted
+      then it.qi_target
+      else if N.eqb tag g_SPAWN then ev.ev_id else kEY_NULL
+    in
     let (p0, fl) = run_actions sc.s_actions h.h_params ev_target [] [] w2 in
     let (sent, w3) = p0 in
     let taken = (&&) h.h_recv_mut sc.s_take in
@@ -2698,7 +2711,11 @@ let rec flush_loop beh fuel q w =
        (match fl with
         | Some f0 ->
           (match f0 with
-           | FPanic k -> ((unwind_queue q1 w1), (Some (FPanic k)))
+           | FPanic k ->
+             let w2 = unwind_queue q1 w1 in
+             ((match spawn_all w2 with
+               | ROk (_, w3) -> w3
+               | RFail (_, w3) -> w3), (Some (FPanic k)))
            | FUB s -> (w1, (Some (FUB s))))
         | None ->
           flush_loop beh f (app (firstn before q1) (rev (skipn before q1))) w1))
@@ -2755,14 +2772,16 @@ let add_global_event beh =
     match fuel with
     | O -> RFail ((FPanic (Npos (XO (XO (XO XH))))), w)
     | S f ->
-      rbind (add_global_event0 f tag w) (fun k w1 ->
-        let w2 =
-          if N.ltb (Npos (XO (XI (XO XH)))) tag
-          then note w1 tag ev.ev_id
-          else w1
-        in
-        flush beh ({ qi_targeted = false; qi_idx = (fst k); qi_target =
-          kEY_NULL; qi_ev = ev } :: []) w2)
+      (match add_global_event0 f tag w with
+       | ROk (k, w1) ->
+         let w2 =
+           if N.ltb (Npos (XO (XI (XO XH)))) tag
+           then note w1 tag ev.ev_id
+           else w1
+         in
+         flush beh ({ qi_targeted = false; qi_idx = (fst k); qi_target =
+           kEY_NULL; qi_ev = ev } :: []) w2
+       | RFail (e, w') -> RFail (e, (ev_drop w' false tag ev)))
   in add_global_event0
 
 (** val send_global :
@@ -2793,14 +2812,16 @@ let send_global beh =
     match fuel with
     | O -> RFail ((FPanic (Npos (XO (XO (XO XH))))), w)
     | S f ->
-      rbind (add_global_event0 f tag w) (fun k w1 ->
-        let w2 =
-          if N.ltb (Npos (XO (XI (XO XH)))) tag
-          then note w1 tag ev.ev_id
-          else w1
-        in
-        flush beh ({ qi_targeted = false; qi_idx = (fst k); qi_target =
-          kEY_NULL; qi_ev = ev } :: []) w2)
+      (match add_global_event0 f tag w with
+       | ROk (k, w1) ->
+         let w2 =
+           if N.ltb (Npos (XO (XI (XO XH)))) tag
+           then note w1 tag ev.ev_id
+           else w1
+         in
+         flush beh ({ qi_targeted = false; qi_idx = (fst k); qi_target =
+           kEY_NULL; qi_ev = ev } :: []) w2
+       | RFail (e, w') -> RFail (e, (ev_drop w' false tag ev)))
   in send_global0
 
 (** val rFUEL : nat **)
@@ -2874,9 +2895,11 @@ let add_targeted_event beh tag w =
     (hinfo -> logent -> n -> script) -> n -> key -> evv -> world -> unit res **)
 
 let send_to beh tag target ev w =
-  rbind (add_targeted_event beh tag w) (fun k w1 ->
+  match add_targeted_event beh tag w with
+  | ROk (k, w1) ->
     flush beh ({ qi_targeted = true; qi_idx = (fst k); qi_target = target;
-      qi_ev = ev } :: []) w1)
+      qi_ev = ev } :: []) w1
+  | RFail (e, w') -> RFail (e, (ev_drop w' true tag ev))
 
 type rcvd =
 | RcNone
